@@ -112,6 +112,7 @@ func runCacheHistory(env *fw.Env, c CacheCase, withFaults bool, judgeMinimizeLat
 	written := false
 	flipHC := 0
 	readFailed := false
+	ctxReadFailed := false // an earlier read failed with a context error of the datastore's own
 	lastRef := map[string]string{}
 	for i, op := range c.Ops {
 		h0 := cc.hits.Load()
@@ -144,7 +145,7 @@ func runCacheHistory(env *fw.Env, c CacheCase, withFaults bool, judgeMinimizeLat
 			ctx, cancel := context.WithCancel(context.Background())
 			faulted := withFaults && op.At > 0
 			if faulted {
-				fd.arm(op.At, cancel, op.Fail)
+				fd.armErr(op.At, cancel, op.Fail, op.FailCtx)
 			}
 			n := 1
 			if op.Burst > 1 && !faulted {
@@ -191,6 +192,9 @@ func runCacheHistory(env *fw.Env, c CacheCase, withFaults bool, judgeMinimizeLat
 			cancel()
 			if fired {
 				readFailed = true
+				if op.Fail && op.FailCtx {
+					ctxReadFailed = true
+				}
 			}
 			for j, o := range out {
 				if deadlined && j == 0 {
@@ -234,12 +238,21 @@ func runCacheHistory(env *fw.Env, c CacheCase, withFaults bool, judgeMinimizeLat
 							continue
 						}
 						if ((be != nil) != (o.e != nil) || (be == nil && ba != o.a)) && judgeCheckAgainst(cur, op.Req, o.a, o.e, what) != nil {
-							return fw.Failf("", "%s weighted-engine Check(%s) answered %v (err %v) with caches, %v (err %v) without\n%s", what, op.Req, o.a, o.e, ba, be, semkit.Describe(cur))
+							sig := ""
+							if o.e == nil && ctxReadFailed && c.Cfg.Shared {
+								sig = SigSharedReplaysReadError // see below: a replayed context error reads as the end of the list
+							}
+							return fw.Failf(sig, "%s weighted-engine Check(%s) answered %v (err %v) with caches, %v (err %v) without\n%s", what, op.Req, o.a, o.e, ba, be, semkit.Describe(cur))
 						}
 					} else if f := judgeCheckAgainst(cur, op.Req, o.a, o.e, fmt.Sprintf("%s [faulted=%v fired=%v earlier-read-failed=%v]", what, faulted, fired, readFailed)); f != nil {
 						if c.Cfg.Engine == "v2" && f.Signature == "" && o.e != nil {
 							_, unk := semkit.RefCheck(cur, op.Req)
 							f.Signature = semkit.ClassifyV2Error(cur, o.e, unk)
+						}
+						if f.Signature == "" && o.e == nil && ctxReadFailed && c.Cfg.Shared {
+							// the shared iterator keeps the context error of the failed read and replays it to later clones,
+							// and the engine reads a context error as the end of the list: same recorded root cause
+							f.Signature = SigSharedReplaysReadError
 						}
 						return f
 					}
